@@ -61,9 +61,7 @@ Inductive exkind :=
 | KBadOpt      (* unsupported option *)
 | KArgType     (* wrong type for a builtin's argument *)
 | KPipe        (* several pipeline stages failed: payload = their exceptions *)
-| KOther       (* everything else (index must be integer, not indexable, ...) *)
-| KNil.        (* faithful mode only: Go's &exception{nil reason}, which a deferred
-                  callback that succeeded hands to runDefers (see checks/C15.md) *)
+| KOther.      (* everything else (index must be integer, not indexable, ...) *)
 
 Definition env := list (N * nat).    (* name -> cell address *)
 
@@ -91,10 +89,9 @@ Record state := mkState {
   st_defers : list deferred;    (* current closure frame, most recent first *)
   st_infn : bool;               (* inside a closure call? *)
   st_wrest : list deferred;     (* restores collected by the `with` being set up, most recent first *)
-  st_stale : bool               (* faithful mode (follows two defects of the Go code): element
-                                   lvalues keep the container read when the left-hand side was
-                                   evaluated (MakeElement), and a deferred callback that
-                                   succeeds counts as a reason-less exception (deferFn) *)
+  st_stale : bool               (* faithful mode (follows the Go code): element lvalues keep
+                                   the container read when the left-hand side was evaluated
+                                   (vars.MakeElement) *)
 }.
 
 Inductive outcome :=
